@@ -159,4 +159,201 @@ theorem empty_clients (C : Chan) :
     rfl
 
 
+/-- the backend `b` belongs to a durable (non-ephemeral) topic or channel of `s` -/
+def DurableOwner (s : St) (b : BName) : Prop :=
+  match b.2 with
+  | none => ∃ T ∈ s.topics, T.name = b.1 ∧ T.eph = false
+  | some c => ∃ T ∈ s.topics, T.name = b.1 ∧ ∃ C ∈ T.chans, C.name = c ∧ C.eph = false
+
+theorem mem_addFile {fs : List BName} {b x : BName} (h : x ∈ addFile fs b) : x ∈ fs ∨ x = b := by
+  unfold addFile at h
+  by_cases hb : b ∈ fs
+  · simp [hb] at h; exact Or.inl h
+  · simp [hb] at h; rcases h with h | h
+    · exact Or.inr h
+    · exact Or.inl h
+
+theorem getTopic_mem {s : St} {t : String} {T : Topic} (h : getTopic s t = some T) : T ∈ s.topics ∧ T.name = t :=
+  ⟨List.mem_of_find?_eq_some h, getTopic_name h⟩
+
+theorem getChan_mem {s : St} {t c : String} {C : Chan} (h : getChan s t c = some C) :
+    ∃ T ∈ s.topics, T.name = t ∧ C ∈ T.chans ∧ C.name = c := by
+  obtain ⟨T, hT, hC⟩ := getChan_some h
+  exact ⟨T, (getTopic_mem hT).1, (getTopic_mem hT).2, List.mem_of_find?_eq_some hC, getChan_name hC⟩
+
+theorem putMessage_eph (cap : Nat) (C : Chan) (m : Msg) :
+    (C.putMessage cap m).eph = C.eph ∧ (C.putMessage cap m).name = C.name := by
+  unfold Chan.putMessage Chan.put
+  by_cases h1 : C.exiting <;> by_cases h2 : C.memLen < cap <;> by_cases h3 : C.eph <;> simp [h1, h2, h3]
+
+theorem foldl_files_mem (t : String) (cap : Nat) (cs : List Chan) : ∀ (fs : List BName) (x : BName),
+    x ∈ cs.foldl (fun acc C => if !C.exiting && C.putWrites cap then addFile acc (t, some C.name) else acc) fs →
+    x ∈ fs ∨ ∃ C ∈ cs, C.eph = false ∧ x = (t, some C.name) := by
+  induction cs with
+  | nil => intro fs x h; exact Or.inl h
+  | cons Y ys ih =>
+    intro fs x h
+    simp only [List.foldl] at h
+    rcases ih _ x h with h1 | ⟨C, hC, he, hx⟩
+    · by_cases hw : (!Y.exiting && Y.putWrites cap) = true
+      · simp only [hw, if_true] at h1
+        rcases mem_addFile h1 with h2 | h2
+        · exact Or.inl h2
+        · refine Or.inr ⟨Y, List.mem_cons_self, ?_, h2⟩
+          simp [Chan.putWrites] at hw
+          exact hw.2.2
+      · simp only [hw] at h1
+        exact Or.inl h1
+    · exact Or.inr ⟨C, List.mem_cons_of_mem _ hC, he, hx⟩
+
+/-- files written by a fan-out belong to durable channels of the topic -/
+theorem fanoutFiles_mem (t : String) (cap : Nat) (ms : List Msg) : ∀ (cs : List Chan) (fs : List BName) (x : BName),
+    x ∈ fanoutFiles cap t cs ms fs →
+    x ∈ fs ∨ ∃ C ∈ cs, C.eph = false ∧ x = (t, some C.name) := by
+  induction ms with
+  | nil => intro cs fs x h; exact Or.inl h
+  | cons m ms ih =>
+    intro cs fs x h
+    simp only [fanoutFiles] at h
+    rcases ih _ _ x h with h1 | ⟨C', hC', he', hx'⟩
+    · exact foldl_files_mem t cap cs fs x h1
+    · unfold fanout at hC'
+      obtain ⟨C, hC, rfl⟩ := List.mem_map.mp hC'
+      refine Or.inr ⟨C, hC, ?_, ?_⟩
+      · rw [← (putMessage_eph cap C m).1]; exact he'
+      · rw [hx', (putMessage_eph cap C m).2]
+
+/-- **files are only ever created for durable owners**: whatever operation runs, a backend that
+owns files afterwards either owned files before or belongs to a durable topic/channel of the
+state — an ephemeral topic or channel never reaches the disk -/
+theorem files_only_for_durable (s : St) (o : Op) (b : BName) (hb : b ∈ (step s o).1.files) :
+    b ∈ s.files ∨ DurableOwner s b := by
+  cases o with
+  | createTopic t e => simp only [step] at hb; split at hb <;> exact Or.inl hb
+  | createChan t c e =>
+    simp only [step] at hb
+    split at hb
+    · exact Or.inl hb
+    · split at hb <;> exact Or.inl hb
+  | deleteTopic t =>
+    simp only [step] at hb
+    split at hb
+    · exact Or.inl hb
+    · exact Or.inl (List.mem_filter.mp hb).1
+  | deleteChanBegin t c =>
+    simp only [step] at hb
+    split at hb
+    · exact Or.inl hb
+    · split at hb
+      · exact Or.inl hb
+      · exact Or.inl (List.mem_filter.mp hb).1
+  | deleteChanUnlink t c =>
+    simp only [step] at hb
+    split at hb
+    · exact Or.inl hb
+    · split at hb
+      · exact Or.inl hb
+      · split at hb
+        · exact Or.inl hb
+        · split at hb
+          · exact Or.inl (List.mem_filter.mp hb).1
+          · exact Or.inl hb
+  | emptyTopic t =>
+    simp only [step] at hb
+    split at hb
+    · exact Or.inl hb
+    · exact Or.inl (List.mem_filter.mp hb).1
+  | emptyChan t c =>
+    simp only [step] at hb
+    split at hb
+    · exact Or.inl hb
+    · split at hb
+      · exact Or.inl hb
+      · exact Or.inl (List.mem_filter.mp hb).1
+  | pauseTopic t p => simp only [step] at hb; split at hb <;> exact Or.inl hb
+  | pauseChan t c p => simp only [step] at hb; split at hb <;> exact Or.inl hb
+  | pub t m =>
+    simp only [step] at hb
+    split at hb
+    · exact Or.inl hb
+    · rename_i T hT
+      have hb' : b ∈ (if T.putWrites s.memCap then addFile s.files (t, none) else s.files) := hb
+      by_cases hw : T.putWrites s.memCap = true
+      · simp only [hw, if_true] at hb'
+        rcases mem_addFile hb' with h | h
+        · exact Or.inl h
+        · refine Or.inr ?_
+          subst h
+          simp [Topic.putWrites] at hw
+          exact ⟨T, (getTopic_mem hT).1, (getTopic_mem hT).2, hw.2⟩
+      · simp only [hw] at hb'
+        exact Or.inl hb'
+  | pump t =>
+    simp only [step] at hb
+    split at hb
+    · exact Or.inl hb
+    · rename_i T hT
+      split at hb
+      · exact Or.inl hb
+      · have hb' : b ∈ fanoutFiles s.memCap t T.chans T.queue s.files := hb
+        rcases fanoutFiles_mem t s.memCap T.queue T.chans s.files b hb' with h | ⟨C, hC, he, hx⟩
+        · exact Or.inl h
+        · subst hx
+          exact Or.inr ⟨T, (getTopic_mem hT).1, (getTopic_mem hT).2, C, hC, rfl, he⟩
+  | sub t c k =>
+    simp only [step] at hb
+    repeat' split at hb
+    all_goals exact Or.inl hb
+  | unsub t c k =>
+    simp only [step] at hb
+    repeat' split at hb
+    all_goals first | exact Or.inl hb | exact Or.inl (List.mem_filter.mp hb).1
+  | deliver t c k fm id =>
+    simp only [step] at hb
+    repeat' split at hb
+    all_goals exact Or.inl hb
+  | fin t c k id =>
+    simp only [step] at hb
+    repeat' split at hb
+    all_goals exact Or.inl hb
+  | req t c k id d =>
+    simp only [step] at hb
+    split at hb
+    · exact Or.inl hb
+    · rename_i C hC
+      split at hb
+      · exact Or.inl hb
+      · split at hb
+        · exact Or.inl hb
+        · have hb' : b ∈ (if C.putWrites s.memCap then addFile s.files (t, some c) else s.files) := hb
+          by_cases hw : C.putWrites s.memCap = true
+          · simp only [hw, if_true] at hb'
+            rcases mem_addFile hb' with h | h
+            · exact Or.inl h
+            · subst h
+              obtain ⟨T, hT, hn, hCm, hcn⟩ := getChan_mem hC
+              simp [Chan.putWrites] at hw
+              exact Or.inr ⟨T, hT, hn, C, hCm, hcn, hw.2⟩
+          · simp only [hw] at hb'
+            exact Or.inl hb'
+  | release t c id =>
+    simp only [step] at hb
+    split at hb
+    · exact Or.inl hb
+    · rename_i C hC
+      split at hb
+      · exact Or.inl hb
+      · have hb' : b ∈ (if C.putWrites s.memCap then addFile s.files (t, some c) else s.files) := hb
+        by_cases hw : C.putWrites s.memCap = true
+        · simp only [hw, if_true] at hb'
+          rcases mem_addFile hb' with h | h
+          · exact Or.inl h
+          · subst h
+            obtain ⟨T, hT, hn, hCm, hcn⟩ := getChan_mem hC
+            simp [Chan.putWrites] at hw
+            exact Or.inr ⟨T, hT, hn, C, hCm, hcn, hw.2⟩
+        · simp only [hw] at hb'
+          exact Or.inl hb'
+
+
 end Nsq.Proofs.Life
